@@ -69,6 +69,7 @@ type Val struct {
 	Fields   []Val // by-value struct built Go-side
 	Inner    *Val  // payload of a boxed interface value, when known on this path
 	MaybeNil bool
+	NilIface bool // interface value a specification (verif.Nullable) or a library model declared possibly nil: calling through it is an obligation
 	Iter     *IterInfo
 	Guard    string // lock key guarding the contents designated by this value (maps/slices from guarded fields)
 	Fresh    bool   // freshly allocated on this path (maps, objects)
@@ -104,7 +105,8 @@ type Frame struct {
 	cut         map[*ssa.BasicBlock]bool
 	unroll      map[*ssa.BasicBlock]int
 	prev        *ssa.BasicBlock
-	hasRec      bool // has a deferred closure that calls recover()
+	leftFrom    map[*ssa.BasicBlock]*ssa.BasicBlock // cut loop header -> the loop block this path left the loop from
+	hasRec      bool                                // has a deferred closure that calls recover()
 	con         *Contract
 	useCtx      *useCtx
 	bound       []string // quantified variables (ModeContractUse / pure-forall)
@@ -128,6 +130,12 @@ func (f *Frame) clone() *Frame {
 	g.cut = make(map[*ssa.BasicBlock]bool, len(f.cut))
 	for k, v := range f.cut {
 		g.cut[k] = v
+	}
+	if f.leftFrom != nil {
+		g.leftFrom = make(map[*ssa.BasicBlock]*ssa.BasicBlock, len(f.leftFrom))
+		for k, v := range f.leftFrom {
+			g.leftFrom[k] = v
+		}
 	}
 	g.unroll = make(map[*ssa.BasicBlock]int, len(f.unroll))
 	for k, v := range f.unroll {
